@@ -88,6 +88,10 @@ pub struct Stats {
     pub nontrivial: HashSet<u64>,
     pub triples: HashSet<u32>,
     pub hist: u64,
+    /// wall-clock duration of the slowest single run in microseconds and its index (reported in
+    /// the evidence as a distance-to-budget indicator; takes part in no verdict and no digest)
+    pub slowest_us: u64,
+    pub slowest_run: u64,
 }
 
 impl Stats {
@@ -109,6 +113,10 @@ impl Stats {
         self.distinct.extend(o.distinct);
         self.nontrivial.extend(o.nontrivial);
         self.triples.extend(o.triples);
+        if o.slowest_us > self.slowest_us {
+            self.slowest_us = o.slowest_us;
+            self.slowest_run = o.slowest_run;
+        }
         // order independent combination of per-run history hashes
         self.hist = self.hist.wrapping_add(o.hist);
     }
@@ -183,6 +191,7 @@ where
                     crate::watch::note_progress(st.distinct.len() as u64, st.nontrivial.len() as u64);
                     for run in base..(base + 64).min(n) {
                         crate::watch::enter(run);
+                        let t_run = std::time::Instant::now();
                         let r = match catch_unwind(AssertUnwindSafe(|| body(run, &mut st))) {
                             Ok(r) => r,
                             Err(_) => {
@@ -190,6 +199,11 @@ where
                                 RunResult { violations: vec![], hist: 0 }
                             }
                         };
+                        let us = t_run.elapsed().as_micros() as u64;
+                        if us > st.slowest_us {
+                            st.slowest_us = us;
+                            st.slowest_run = run;
+                        }
                         st.fold_hist(run, r.hist);
                         st.inc("runs");
                         if !r.violations.is_empty() {
@@ -346,6 +360,10 @@ pub fn known_match<'a>(known: &'a [Known], prop: &str, sig: &str) -> Option<&'a 
 // evidence
 // ---------------------------------------------------------------------------------------------
 
+fn self_ms(us: u64) -> f64 {
+    (us as f64 / 10.0).round() / 100.0
+}
+
 pub struct Evidence {
     pub prop: &'static str,
     pub tier: Tier,
@@ -418,6 +436,10 @@ impl Evidence {
         cov.insert("real_vs_stub".into(), self.real_vs_stub.clone());
         cov.insert("known_findings_reported".into(), json!(known));
         cov.insert("workers".into(), json!(workers()));
+        cov.insert(
+            "slowest_single_run".into(),
+            json!({"wall_ms": self_ms(st.slowest_us), "run_index": st.slowest_run, "note": "wall clock, for orientation only: the CPU budget after which a run counts as not ending is VERIF_HANG_CPU_S (default 60 s)"}),
+        );
         for (k, v) in &self.extra {
             cov.insert(k.clone(), v.clone());
         }
